@@ -324,6 +324,14 @@ Section Image.
   Ltac ok_err E' := exfalso; cbn in E'; discriminate.
 
   (* ------------------------------------------------ character data *)
+  Lemma dt_nonplain_is_data f up d :
+    is_cdata_frame f = false -> syncml_data_type (f :: up) = Some d -> dt_plain d = false -> kind_is_data (f_kind f) = true.
+  Proof.
+    intros C. unfold syncml_data_type. rewrite C. unfold kind_is_data. unfold is_cdata_frame in C.
+    destruct (f_kind f) as [tg a ct|]; [|discriminate].
+    destruct (beq (tag_xml_name tg) s_Data); [reflexivity|]. intros H; injection H as <-. discriminate.
+  Qed.
+
   Lemma chars_inv c ch : CInv c -> step_clause c (EvCharacters ch) = 0 -> CInv (step c (EvCharacters ch)).
   Proof.
     intros I CL E'.
@@ -339,17 +347,36 @@ Section Image.
     destruct I as (l & L & (F & C & A) & _).
     destruct (syncml_data_type (f :: up)) as [d|] eqn:DT.
     2:{ exfalso. cbn [XmlFront.step] in E'. unfold on_characters in E'. rewrite (eqb_ok _ E), K, S, DT in E'. cbn in E'. discriminate. }
-    destruct (negb (dt_plain d) && negb (is_cdata_frame f) && negb (first_kid_is_cdata f)) eqn:PU; [discriminate|].
-    rewrite (on_characters_normal main sub input c f up d ch E K S DT) in *. rewrite dt_wants_plain, PU in *.
-    cbn [c_root c_spine c_lang c_skip_lvl set_spine]. split; [exact R|]. exists l. split; [exact L|]. split; [|intros X; now elim X].
-    cbn [spine_ok]. unfold store. destruct (is_binary_frame f) eqn:B.
-    - destruct (f_kind f) as [tg a ct|] eqn:KF.
-      + split; [now apply (frame_ok_content l up f tg a ct)|]. split; [|exact A].
-        unfold cache_ok, is_binary_frame in *. cbn [f_kind]. rewrite KF in B. exact B.
-      + auto.
-    - split; [apply add_text_ok; auto; discriminate|]. split; [|exact A].
-      unfold cache_ok. rewrite add_text_kid_kind. pose proof (nonbinary_no_content f C B) as NC. unfold no_content in NC.
-      destruct (f_kind f) as [tg a [ct|]|]; [contradiction|exact I|exact I].
+    rewrite (on_characters_normal main sub input c f up d ch E K S DT) in *. rewrite dt_wants_plain in *.
+    assert (NX : ch <> []) by discriminate.
+    destruct (negb (dt_plain d) && negb (is_cdata_frame f) && negb (first_kid_is_cdata f)) eqn:PU.
+    - (* the front end adds a CDATA section *)
+      apply andb_true_iff in PU. destruct PU as (PU & _). apply andb_true_iff in PU. destruct PU as (NP & NC).
+      apply negb_true_iff in NP. apply negb_true_iff in NC.
+      pose proof (dt_nonplain_is_data f up d NC DT NP) as ISD.
+      assert (B : is_binary_frame f = false).
+      { destruct F as (EO & _). rewrite is_binary_kind. unfold kind_is_data in ISD. destruct (f_kind f) as [tg a ct|]; [|reflexivity].
+        cbn [elt_ok kind_binary] in *. rewrite ISD in EO. cbn [negb] in EO. rewrite orb_false_r in EO.
+        rewrite !andb_true_iff in EO. destruct EO as (_ & EO). now apply negb_true_iff in EO. }
+      cbn [c_root c_spine c_lang c_skip_lvl set_spine]. split; [exact R|]. exists l. split; [exact L|]. split; [|intros X; now elim X].
+      set (C0 := mk_frame FCData []).
+      assert (FT : frame_tag f <> None) by (unfold frame_tag; unfold is_cdata_frame in NC; destruct (f_kind f); [discriminate|discriminate]).
+      assert (DT0 : syncml_data_type (C0 :: f :: up) = Some d) by (rewrite (dt_through_cdata C0 f f up eq_refl eq_refl FT); exact DT).
+      assert (F0 : frame_ok l (f :: up) C0).
+      { split; [|reflexivity]. cbn [C0 f_kind elt_ok]. now rewrite <- is_binary_kind, B. }
+      unfold store. change (is_binary_frame C0) with false. cbv iota.
+      cbn [spine_ok anc_ok]. split; [|split; [|split; [exact F|split; [now apply nonbinary_no_content|exact A]]]].
+      + apply (add_text_ok l (f :: up) C0 d ch F0 Logic.I eq_refl DT0 NX). now rewrite andb_false_r.
+      + unfold cache_ok. now rewrite add_text_kid_kind.
+    - cbn [c_root c_spine c_lang c_skip_lvl set_spine]. split; [exact R|]. exists l. split; [exact L|]. split; [|intros X; now elim X].
+      cbn [spine_ok]. unfold store. destruct (is_binary_frame f) eqn:B.
+      + destruct (f_kind f) as [tg a ct|] eqn:KF.
+        * split; [now apply (frame_ok_content l up f tg a ct)|]. split; [|exact A].
+          unfold cache_ok, is_binary_frame in *. cbn [f_kind]. rewrite KF in B. exact B.
+        * auto.
+      + split; [apply add_text_ok; auto|]. split; [|exact A].
+        unfold cache_ok. rewrite add_text_kid_kind. pose proof (nonbinary_no_content f C B) as NC. unfold no_content in NC.
+        destruct (f_kind f) as [tg a [ct|]|]; [contradiction|exact Logic.I|exact Logic.I].
   Qed.
 
   (* ------------------------------------------------ CDATA sections *)
@@ -395,6 +422,9 @@ Section Image.
   Qed.
 
   (* ------------------------------------------------ end tags *)
+  Lemma go_up_two c f p r : c_spine c = f :: p :: r -> go_up c = set_spine c (add_kid p (reify f) :: r).
+  Proof. unfold go_up. now intros ->. Qed.
+
   Lemma end_elt_inv c name idx : CInv c -> step_clause c (EvEndElement name idx) = 0 -> CInv (step c (EvEndElement name idx)).
   Proof.
     intros I CL E'.
@@ -414,12 +444,18 @@ Section Image.
     assert (FO := flush_ok l c). rewrite S in FO. fold c1 in FO. destruct (FO SP E1) as (A1 & f' & S1 & B1 & C1). clear FO. rewrite S1 in A1.
     destruct (N.eq_dec (c_skip_lvl c) 0) as [K|K].
     - rewrite K in *. cbn [N.ltb N.compare] in *.
-      destruct (is_cdata_frame f) eqn:CF; [discriminate|].
-      unfold leave_current in *. rewrite S1 in *. destruct up as [|p r].
-      + rewrite R in FR. split; [exact FR|]. rewrite S1. exists l. rewrite FL. split; [exact L|]. split; [now apply anc_spine|intros X; lia].
-      + rewrite C1. unfold go_up. rewrite S1. cbn [c_root c_spine c_lang c_skip_lvl set_spine].
-        rewrite R in FR. split; [exact FR|]. exists l. rewrite FL. split; [exact L|]. split; [|intros X; lia].
-        apply anc_spine. destruct A1 as (F1 & _ & A1). now apply go_up_ok.
+      unfold leave_current in *. rewrite S1 in *. rewrite R in FR. destruct up as [|p r].
+      + split; [exact FR|]. rewrite S1. exists l. rewrite FL. split; [exact L|]. split; [now apply anc_spine|intros X; lia].
+      + destruct A1 as (F1 & _ & A1). pose proof (go_up_ok l f' p r F1 A1) as G1.
+        destruct (is_cdata_frame f') eqn:CF'.
+        * destruct r as [|q r']; [rewrite <- C1 in CL; discriminate|].
+          rewrite (go_up_two c1 _ _ _ S1) in *. rewrite (go_up_two (set_spine c1 _) _ _ _ eq_refl) in *.
+          cbn [c_root c_spine c_lang c_skip_lvl set_spine].
+          split; [exact FR|]. exists l. rewrite FL. split; [exact L|]. split; [|intros X; lia].
+          apply anc_spine. destruct G1 as (G1 & _ & G2). now apply go_up_ok.
+        * rewrite (go_up_two c1 _ _ _ S1) in *. cbn [c_root c_spine c_lang c_skip_lvl set_spine].
+          split; [exact FR|]. exists l. rewrite FL. split; [exact L|]. split; [|intros X; lia].
+          now apply anc_spine.
     - destruct (SK K) as (BF & CF). rewrite (skip_pos _ K) in *.
       assert (BASE : forall c2, c_root c2 = c_root c1 -> c_spine c2 = c_spine c1 -> c_lang c2 = c_lang c1 ->
                                 c_root c2 = None /\
@@ -458,7 +494,7 @@ Section Image.
     destruct (tag_canon l tg); [|discriminate]. cbn [negb andb] in *.
     assert (T : (match up with [] => true | _ :: _ => tag_not_embedded l tg end) = true).
     { destruct up; [reflexivity|]. cbn [andb] in CL. destruct (tag_not_embedded l tg); [reflexivity|discriminate]. }
-    rewrite T. assert (CL' : (if negb (attrs_canon l attrs) then 8 else if tag_binary tg && beq (tag_xml_name tg) s_Data then 10 else 0) = 0).
+    rewrite T. assert (CL' : (if negb (attrs_canon l attrs) then 7 else if tag_binary tg && beq (tag_xml_name tg) s_Data then 9 else 0) = 0).
     { destruct up; [exact CL|]. cbn [andb] in CL. destruct (tag_not_embedded l tg); [exact CL|discriminate]. }
     destruct (attrs_canon l attrs); [|discriminate]. cbn [negb andb] in *.
     destruct (tag_binary tg); [|reflexivity]. destruct (beq (tag_xml_name tg) s_Data); [discriminate|reflexivity].
@@ -674,3 +710,167 @@ Section Image.
     unfold tree_of_ctx, root_of in NR. cbn [xt_roots] in NR. rewrite S in NR. cbn in NR. discriminate.
   Qed.
 End Image.
+
+(* ------------------------------------------------------------------ the front end is idempotent on canonical event lists *)
+
+From Wbxml Require Import Proofs.XmlFrontSize Gen.TablesData.
+
+(* reading the events written for the tree gives the tree again (with the charset of a document that declares none).
+   No hypothesis on the tree: only on the event list it came from, on the table (each language is selected by its own
+   DOCTYPE) and on what the nested parse answers on re-reading (nothing to say when emb = no_emb). *)
+Theorem front_idempotent main sub input emb sub' input' evs ok t :
+  (forall l, In l main -> search_table main (option_map str (option_map bs (l_pub_text l))) (option_map str (option_map bs (l_dtd l))) None = Some l) ->
+  (forall l lid roots, In l main -> emb lid roots = true -> emb_spec main sub' input' l lid roots) ->
+  input' <> [] ->
+  evs_canon main sub input emb evs = true -> tree_from_xml main sub input evs ok = inl t -> xt_roots t <> [] ->
+  exists l r, xt_roots t = [r] /\ xt_lang t = l_id l /\ root_canon l emb r = true /\
+              tree_from_xml main sub' input' (events_of l r) true = inl (mk_xtree (xt_lang t) 0 (xt_roots t)).
+Proof.
+  intros TB EO NI CL T NR.
+  destruct (image_canonical_any main sub input emb evs ok t CL T) as [X|(l & r & IN & _ & LG & R & RC)]; [contradiction|].
+  exists l, r. split; [exact R|]. split; [exact LG|]. split; [exact RC|]. rewrite R, LG.
+  exact (front_inverts_events main sub' input' l emb (fun lid roots H => EO l lid roots IN H) r NI (TB l IN) RC).
+Qed.
+
+(* every language of the project's table is selected by its own DOCTYPE *)
+Lemma main_table_doctype_selects :
+  forall l, In l main_table ->
+  search_table main_table (option_map str (option_map bs (l_pub_text l))) (option_map str (option_map bs (l_dtd l))) None = Some l.
+Proof.
+  assert (F : Forall (fun l => search_table main_table (option_map str (option_map bs (l_pub_text l))) (option_map str (option_map bs (l_dtd l))) None = Some l) main_table).
+  { unfold main_table. repeat (constructor; [vm_compute; reflexivity|]). constructor. }
+  intros l I. rewrite Forall_forall in F. now apply F.
+Qed.
+
+(* the project's table, documents without embedded documents, no encoding declared: the same tree *)
+Theorem front_idempotent_main sub input sub' input' evs ok t :
+  input' <> [] ->
+  evs_canon main_table sub input no_emb evs = true -> tree_from_xml main_table sub input evs ok = inl t ->
+  xt_roots t <> [] -> xt_charset t = 0 ->
+  exists l r, xt_roots t = [r] /\ xt_lang t = l_id l /\ tree_from_xml main_table sub' input' (events_of l r) true = inl t.
+Proof.
+  intros NI CL T NR CS.
+  destruct (front_idempotent main_table sub input no_emb sub' input' evs ok t main_table_doctype_selects
+                             (fun l lid roots _ H => no_emb_ok main_table sub' input' l lid roots H) NI CL T NR) as (l & r & R & LG & _ & F).
+  exists l, r. split; [exact R|]. split; [exact LG|]. rewrite F. destruct t as [lg cs rt]. cbn in *. now subst cs.
+Qed.
+
+(* ------------------------------------------------------------------ clauses 6 and 8 are silent on the project's tables *)
+
+(* a name that is in the table is found from every code page a namespace can select *)
+Definition lang_names_found (l : lang) : bool :=
+  forallb (fun r => forallb (fun q => match tag_from_xml l (Some q) (t_name r) with Some _ => true | None => false end)
+                            (cand_pages l)) (opt_list (l_tags l)).
+
+Lemma main_table_names_found : forallb lang_names_found main_table = true.
+Proof. vm_compute. reflexivity. Qed.
+
+Lemma unknown_name_everywhere l q q' nm :
+  lang_names_found l = true -> In q (cand_pages l) -> tag_from_xml l (Some q) nm = None -> tag_from_xml l (Some q') nm = None.
+Proof.
+  intros NF IQ T. destruct (tag_from_xml l (Some q') nm) as [r'|] eqn:T'; [|reflexivity]. exfalso.
+  pose proof (XmlFrontNames.tag_from_xml_in _ _ _ _ T') as IN. pose proof (tag_from_xml_name _ _ _ _ T') as NM.
+  unfold lang_names_found in NF. rewrite forallb_forall in NF. specialize (NF r' IN). rewrite forallb_forall in NF.
+  specialize (NF q IQ). rewrite NM, T in NF. discriminate.
+Qed.
+
+Lemma split_last_none sep : forall s a b, split_last sep s = Some (a, b) -> split_last sep b = None.
+Proof.
+  induction s as [|x r IH]; intros a b; cbn [split_last]; [discriminate|].
+  destruct (split_last sep r) as [[a' b']|] eqn:SL.
+  - intros H; injection H as <- <-. exact (IH _ _ eq_refl).
+  - destruct (x =? sep); [|discriminate]. intros H; injection H as <- <-. exact SL.
+Qed.
+
+Lemma beq_refl a : beq a a = true.
+Proof. now apply beq_eq. Qed.
+
+(* whatever name is delivered, the tag made for it is found again from the name written for it *)
+Theorem resolve_tag_canon l name :
+  lang_tags_canon l = true -> lang_names_found l = true -> tag_canon l (fst (resolve_tag l name)) = true.
+Proof.
+  intros TC NF. destruct (fst (resolve_tag l name)) as [p t o nm|nm] eqn:R.
+  - exact (resolve_tag_token_canon l name p t o nm TC R).
+  - unfold resolve_tag in R.
+    destruct (match split_last SEP name with Some (a, b) => (a, b) | None => ([], name) end) as [ns local] eqn:SP.
+    destruct (tag_from_xml l (Some (page_of_xmlns l (str ns))) (str local)) as [row|] eqn:T; cbn [fst] in R; [discriminate|].
+    injection R as <-.
+    assert (NS : split_last SEP local = None).
+    { destruct (split_last SEP name) as [[a b]|] eqn:SL; injection SP as <- <-; [exact (split_last_none _ _ _ _ SL)|exact SL]. }
+    unfold tag_canon. cbn [ev_name]. unfold resolve_tag. rewrite NS.
+    rewrite (unknown_name_everywhere l _ (page_of_xmlns l (str [])) _ NF (page_of_xmlns_cand l (str ns)) T).
+    cbn [fst tagname_eqb]. apply beq_refl.
+Qed.
+
+Lemma obeq_refl a : obeq a a = true.
+Proof. destruct a; [apply beq_refl|reflexivity]. Qed.
+Lemma attr_eqb_refl a : attr_eqb a a = true.
+Proof.
+  unfold attr_eqb, attrname_eqb. destruct (at_name a); rewrite ?N.eqb_refl, ?beq_refl, ?obeq_refl; reflexivity.
+Qed.
+Lemma list_eqb_refl {A} (eqb : A -> A -> bool) : (forall x, eqb x x = true) -> forall a, list_eqb eqb a a = true.
+Proof. intros H. induction a as [|x r IH]; [reflexivity|]. cbn. now rewrite H, IH. Qed.
+
+(* attributes whose names are octet strings are found again *)
+Theorem attrs_canon_octets l raw :
+  Forall (fun nv => Forall (fun c => c < 256) (fst nv)) raw -> attrs_canon l (map (resolve_attr l) raw) = true.
+Proof.
+  intros F. unfold attrs_canon.
+  assert (M : map ev_attr (map (resolve_attr l) raw) = raw).
+  { induction F as [|nv r Hnv _ IH]; [reflexivity|]. cbn [map]. now rewrite (resolve_attr_canon l nv Hnv), IH. }
+  rewrite M. apply list_eqb_refl. apply attr_eqb_refl.
+Qed.
+
+Lemma main_table_tag_clause_silent l name : In l main_table -> tag_canon l (fst (resolve_tag l name)) = true.
+Proof.
+  intros I. pose proof main_table_tags_canon as TC. pose proof main_table_names_found as NF.
+  rewrite forallb_forall in TC, NF. apply resolve_tag_canon; auto.
+Qed.
+
+(* ------------------------------------------------------------------ each remaining clause is necessary *)
+(* event lists of the shape Expat delivers that violate exactly one clause; the tree is handed out and is not canonical.
+   Clause 1: w1_events; clause 3: w2_events; clause 9: w3_events (Proofs/XmlFrontInverse.v, round 4). *)
+
+Local Open Scope string_scope.
+Definition clause_of := evs_clause main_table (fun _ => inr 104) [60] no_emb.
+
+Example w1_clause : clause_of w1_events = 1.  Proof. vm_compute. reflexivity. Qed.
+Example w2_clause : clause_of w2_events = 3.  Proof. vm_compute. reflexivity. Qed.
+Example w3_clause : clause_of w3_events = 9.  Proof. vm_compute. reflexivity. Qed.
+
+(* clause 4: an embedded document inside a CDATA section (the nested parse answers some tree; every tree is accepted) *)
+Definition w5_sub : bytes -> xtree + N := fun _ => inl (mk_xtree 2202 0 [NElt (TagLit (bs "x")) [] []]).
+Definition all_emb : N -> list node -> bool := fun _ _ => true.
+Definition w5_events : list event :=
+  [EvStartElement (bs "SyncML") [] 0; EvStartCdata; EvStartElement n_DevInf [] 0; EvEndElement n_DevInf 0; EvEndCdata;
+   EvEndElement (bs "SyncML") 0].
+Definition w5_root : node :=
+  Eval vm_compute in match tree_from_xml main_table w5_sub [60] w5_events true with inl t => hd NPi (xt_roots t) | inr _ => NPi end.
+Example image_not_canonical_embedded_in_cdata :
+  evs_clause main_table w5_sub [60] all_emb w5_events = 4 /\
+  tree_from_xml main_table w5_sub [60] w5_events true = inl (mk_xtree 2201 0 [w5_root]) /\
+  root_canon (lang_by_id 2201) all_emb w5_root = false.
+Proof. repeat split; vm_compute; reflexivity. Qed.
+
+(* clause 6: an unprefixed <DevInf> below the root of a DevInf document: its tag is the token DevInf, which is written
+   syncml:devinf|DevInf — and that name, below the root, starts an embedded document *)
+Definition w6_events : list event :=
+  [EvStartElement (bs "DevInf") [] 0; EvStartElement (bs "DevInf") [] 0; EvEndElement (bs "DevInf") 0; EvEndElement (bs "DevInf") 0].
+Definition w6_root : node := Eval vm_compute in image_root w6_events.
+Example image_not_canonical_embedded_name :
+  clause_of w6_events = 6 /\
+  tree_from_xml main_table (fun _ => inr 104) [60] w6_events true = inl (mk_xtree 2202 0 [w6_root]) /\
+  root_canon (lang_by_id 2202) no_emb w6_root = false /\
+  (* and the front end is not idempotent there: read again, the inner element is taken for an embedded document, which a
+     DevInf document cannot hold (WBXML_ERROR_UNKNOWN_XML_LANGUAGE) *)
+  tree_from_xml main_table (fun _ => inr 104) [60] (events_of (lang_by_id 2202) w6_root) true = inr 101.
+Proof. repeat split; vm_compute; reflexivity. Qed.
+
+(* NOT a violation: text for which the front end adds a CDATA section (a vCard in <Data>) *)
+Example added_cdata_is_canonical :
+  let evs := (lf_pre ++ [EvCharacters (bs "BEGIN:VCARD"); EvCharacters [10]; EvCharacters (bs "END:VCARD")] ++ lf_post)%list in
+  clause_of evs = 0 /\
+  exists t r, tree_from_xml main_table (fun _ => inr 104) [60] evs true = inl t /\ xt_roots t = [r] /\
+              root_canon (lang_by_id (xt_lang t)) no_emb r = true /\
+              tree_from_xml main_table (fun _ => inr 104) [60] (events_of (lang_by_id (xt_lang t)) r) true = inl t.
+Proof. split; [vm_compute; reflexivity|]. eexists. eexists. split; [vm_compute; reflexivity|]. repeat split; vm_compute; reflexivity. Qed.
